@@ -289,7 +289,7 @@ pub mod fu2 {
         loop { let v = Vector::new(r.range(-2, 2) as f64, r.range(-2, 2) as f64, r.range(-2, 2) as f64); if v.norm() > 0.0 { return v; } }
     }
     /// dimension of the GJK simplex when `contact` hands over to EPA (None: GJK did not report an intersection)
-    fn gjk_dim3(s1: &Sh, s2: &Sh, pos12: &Isometry<Real>) -> Option<usize> {
+    pub fn gjk_dim3(s1: &Sh, s2: &Sh, pos12: &Isometry<Real>) -> Option<usize> {
         let (g1, g2) = (c03::dynsh(s1), c03::dynsh(s2));
         let (m1, m2) = (g1.as_support_map()?, g2.as_support_map()?);
         let dir = d3::na::Unit::try_new(pos12.translation.vector, f64::EPSILON).unwrap_or(Vector::x_axis());
